@@ -572,6 +572,13 @@ def run_witness(binpath, w):
                 fh.write(w["input"])
             cmd = [binpath, "reftest-rename", f, str(w["offset"]), "--new-name", w["new_name"]]
             stdin = None
+        elif kind == "run-dir":
+            # several files in one directory; run the main one
+            for name, text in w["files"].items():
+                with open(os.path.join(tmpdir, name), "w", encoding="utf-8") as fh:
+                    fh.write(text)
+            cmd = [binpath, "run", os.path.join(tmpdir, w["main"])]
+            stdin = None
         elif kind == "lsp":
             # a list of LSP messages replayed through `garden reftest-lsp`
             f = os.path.join(tmpdir, "s.jsonl")
